@@ -44,7 +44,12 @@ class NumLaws (N : Type) [NumOps N] : Prop where
 
 /-! The integer instance: all laws hold. -/
 
-def natToDec (n : Nat) : Bytes := (toString n).toUTF8.toList
+/-- decimal digits of a natural number, most significant first (fuel: n + 1 suffices) -/
+def decAux : Nat → Nat → Bytes
+  | 0, _ => []
+  | fuel + 1, n => if n < 10 then [(48 + n).toUInt8] else decAux fuel (n / 10) ++ [(48 + n % 10).toUInt8]
+
+def natToDec (n : Nat) : Bytes := decAux (n + 1) n
 
 def intFormat (i : Int) : Bytes :=
   if i < 0 then 45 :: natToDec i.natAbs else natToDec i.natAbs
